@@ -26,18 +26,32 @@ func MustParseDate(s string) Date {
 func ParseDate(s string) (Date, error) {
 	if s == "" {
 		return Date{}, fmt.Errorf("blank date string")
-	} else if date, err := time.ParseInLocation("2006-01-02", s, time.Local); err != nil {
+	} else if date, err := time.Parse("2006-01-02", s); err != nil {
 		return Date{}, err
 	} else {
-		return Date(date), nil
+		return Date(localDate(date.Date())), nil
 	}
 }
 
 // Utility function to explicitly construct a Date from year, month and day.
 func ToDate(year int, month time.Month, day int) Date {
-	date := time.Date(year, month, day, 0, 0, 0, 0, time.Local)
+	return Date(localDate(year, month, day))
+}
 
-	return Date(date)
+// Returns the start of the calendar day year-month-day in the local time zone.
+//
+// Local midnight does not exist on a day on which a daylight saving (or time zone) transition
+// skips it and time.Date may then normalise to the previous day - in which case the first
+// whole hour of the day that does exist is used instead.
+func localDate(year int, month time.Month, day int) time.Time {
+	for hour := 0; hour < 24; hour++ {
+		t := time.Date(year, month, day, hour, 0, 0, 0, time.Local)
+		if y, m, d := t.Date(); y == year && m == month && d == day {
+			return t
+		}
+	}
+
+	return time.Date(year, month, day, 0, 0, 0, 0, time.Local)
 }
 
 // Returns true if the date is the zero value.
@@ -145,10 +159,10 @@ func (d *Date) UnmarshalUT0311L0x(bytes []byte) (any, error) {
 		}
 	}
 
-	if date, err := time.ParseInLocation("20060102", decoded, time.Local); err != nil {
+	if date, err := time.Parse("20060102", decoded); err != nil {
 		return &Date{}, nil
 	} else {
-		v := Date(date)
+		v := Date(localDate(date.Date()))
 
 		return &v, nil
 	}
@@ -175,12 +189,12 @@ func (d *Date) UnmarshalJSON(bytes []byte) error {
 		return nil
 	}
 
-	date, err := time.ParseInLocation("2006-01-02", s, time.Local)
+	date, err := time.Parse("2006-01-02", s)
 	if err != nil {
 		return err
 	}
 
-	*d = Date(date)
+	*d = Date(localDate(date.Date()))
 
 	return nil
 }
